@@ -1,9 +1,11 @@
 package feesx
 
 import (
+	"encoding/json"
 	"fmt"
 	"math/big"
 	"math/rand/v2"
+	"sync"
 	"testing"
 
 	"github.com/ava-labs/avalanchego/ids"
@@ -17,6 +19,7 @@ import (
 	"github.com/ava-labs/hypersdk/examples/morpheusvm/storage"
 	"github.com/ava-labs/hypersdk/fees"
 	"github.com/ava-labs/hypersdk/genesis"
+	"github.com/ava-labs/hypersdk/keys"
 	"github.com/ava-labs/hypersdk/state"
 	"github.com/ava-labs/hypersdk/state/balance"
 	"github.com/ava-labs/hypersdk/zzverif/chainfx"
@@ -150,12 +153,12 @@ func judgeC14(r *kit.Run, c c14Case) (shape string, nontrivial bool) {
 	}
 	r.Eval()
 	var (
-		tx     *chain.Transaction
-		est    fees.Dimensions
-		gerr   error
-		eerr   error
-		units  fees.Dimensions
-		uerr   error
+		tx      *chain.Transaction
+		est     fees.Dimensions
+		gerr    error
+		eerr    error
+		units   fees.Dimensions
+		uerr    error
 		paniced = true
 	)
 	r.Guard("GenerateTransaction", c, func() {
@@ -350,6 +353,72 @@ func TestC14(t *testing.T) {
 			r.Sample(map[string]any{"shape": shape, "auth": c.Auth, "actions": len(c.Actions), "chain_id": c.ChainID})
 		}
 	}
+	c14Concurrent(r)
 	r.Extra("min_bandwidth_slack_bytes", c14MinSlack)
 	r.Finish(r.N(300, 1000))
+}
+
+// c14Concurrent: wallets estimate and sign concurrently against ONE rules object decoded from
+// genesis JSON (as every node and client obtains it; decoded slices have spare capacity). Every
+// estimate must still cover the units of the transaction it was made for.
+func c14Concurrent(r *kit.Run) {
+	base := genesis.NewDefaultRules()
+	base.ChainID = ids.ID{7}
+	base.SponsorStateKeysMaxChunks = []uint16{1}
+	raw, err := json.Marshal(base)
+	if err != nil {
+		r.T.Fatal(err)
+	}
+	rules := &genesis.Rules{}
+	if err := json.Unmarshal(raw, rules); err != nil {
+		r.T.Fatal(err)
+	}
+	rules.ChainID = ids.ID{7}
+	rf := &genesis.ImmutableRuleFactory{Rules: rules}
+	bh := balance.NewPrefixBalanceHandler([]byte{0})
+	workers := 8
+	iters := r.N(1500, 30000)
+	var wg sync.WaitGroup
+	for g := 0; g < workers; g++ {
+		wg.Add(1)
+		go func(g int) {
+			defer wg.Done()
+			rng := r.Rand(fmt.Sprintf("concurrent-%d", g))
+			a := chainfx.SpyAddr(500 + g)
+			f := &chainfx.SpyFactory{Auth: chainfx.SpyAuth{ActorAddr: a, SponsorAddr: a, Compute: 1, Start: -1, End: -1, OK: true}}
+			for i := 0; i < iters; i++ {
+				// each goroutine declares keys with its own chunk sizes, so a foreign chunk list is visible
+				nk := 1 + rng.IntN(4)
+				act := &chainfx.ProgAction{Nonce: uint64(g)<<32 | uint64(i), Start: -1, End: -1}
+				for k := 0; k < nk; k++ {
+					act.Keys = append(act.Keys, chainfx.KeyDecl{Key: keys.EncodeChunks([]byte{byte(g), byte(k), byte(i)}, uint16(1+rng.IntN(1+g*40))), Perm: state.All})
+				}
+				act.Canonicalize()
+				acts := []chain.Action{act}
+				var est fees.Dimensions
+				var tx *chain.Transaction
+				var e1, e2 error
+				r.Guard("EstimateUnits", nil, func() {
+					est, e1 = chain.EstimateUnits(rules, acts, f)
+					tx, e2 = chain.GenerateTransaction(rf, fees.Dimensions{1, 1, 1, 1, 1}, 1_700_000_000_000, acts, f)
+				})
+				r.Eval()
+				if e1 != nil || e2 != nil {
+					continue
+				}
+				units, err := tx.Units(bh, rules)
+				if err != nil {
+					continue
+				}
+				for d := 0; d < fees.FeeDimensions; d++ {
+					if est[d] < units[d] {
+						r.Violation("C14/estimate-below-actual/concurrent-estimates", map[string]any{"goroutine": g, "iteration": i, "estimate": est, "units": units, "dimension": d},
+							"with %d wallets estimating concurrently on one rules object: dimension %d estimate %d < units %d of the transaction it was made for", workers, d, est[d], units[d])
+					}
+				}
+				r.Count("concurrent_estimates", 1)
+			}
+		}(g)
+	}
+	wg.Wait()
 }
